@@ -22,6 +22,7 @@ def gen(run):
     maxl = 3 if run.tier == "quick" else 4
     ex = [pl.case(P, c, "ds") for c in pl.files(a19, maxl)]
     ex += [pl.case(P, c, "ds") for c in pl.files(pl.adjacent(P), maxl - 1)]      # rejected candidate directly followed by the next one
+    ex += [pl.case(P, c, ops) for c in pl.long_line_files(P) for ops in ("ds", "ed")]      # lines as long as the usual fixed buffers
     ex += [pl.case(P, c, "ds") for c in pl.files(pl.percent(P), maxl - 1)]       # printf directives in lines that are kept
     ex += [pl.case(P, c, "ed") for c in pl.files(pl.percent(P), 2)]
     ex += [pl.case(P, c, "ed") for c in pl.files(a18, 2 if run.tier == "quick" else 3)]
